@@ -17,6 +17,7 @@ package derive
 import (
 	"go/token"
 	"go/types"
+	"strconv"
 )
 
 // Named describes a named struct with a list of fields.
@@ -89,4 +90,19 @@ func GetStructFields(s *types.Struct) []*types.Var {
 		fields[i] = s.Field(i)
 	}
 	return fields
+}
+
+// StructFieldStrings returns one line for every field of the struct type, as FieldStrings does, with the tag of the field.
+// The tags are part of the identity of an unnamed struct type: without them the argument is not assignable to the parameter.
+func StructFieldStrings(tm TypesMap, s *types.Struct) ([]string, error) {
+	lines, err := tm.FieldStrings(GetStructFields(s))
+	if err != nil {
+		return nil, err
+	}
+	for i := range lines {
+		if tag := s.Tag(i); tag != "" {
+			lines[i] += " " + strconv.Quote(tag)
+		}
+	}
+	return lines, nil
 }
